@@ -24,6 +24,7 @@ import (
 type Ref struct {
 	Dur  string // seconds | nanos | millis | string
 	Time string // epoch | epochmillis | epochnanos | iso8601 | rfc3339 | rfc3339nano
+	Alt  int    // which of a spec's acceptable encodings to expect (0 = first; see Spec.Alts)
 }
 
 // Kind of a spec node.
@@ -48,6 +49,7 @@ type Spec struct {
 	Elems    []*Elem // array elements
 	ErrAt    int     // -1: marshaler succeeds; k: returns an error after k children
 	Fault    bool    // this node is a failing field (C10)
+	Alts     int     // number of further acceptable encodings (Want consults Ref.Alt)
 	Hostile  bool
 }
 
@@ -580,6 +582,28 @@ func Leaves(full bool) []*Spec {
 	add(fixed("uint64s", func(k string) zapcore.Field { return zap.Uint64s(k, []uint64{math.MaxUint64}) }, jsonx.A(U64(math.MaxUint64))))
 	add(fixed("complex128s", func(k string) zapcore.Field { return zap.Complex128s(k, []complex128{complex(1, -1)}) }, jsonx.A(jsonx.S("1-1i"))))
 	add(fixed("stringers", func(k string) zapcore.Field { return zap.Stringers(k, []okStringer{{"a"}, {"\n"}}) }, jsonx.A(jsonx.S("a"), jsonx.S("\n"))))
+	// failing elements inside zap.Stringers: the statement promises containment
+	// (the call returns, the line stays well-formed, the other fields are
+	// intact); two renderings are accepted - the element shown as "<nil>" like
+	// the nil-pointer Stringer field, or the array cut at the failing element
+	// with a <key>Error member (any text) like a failing array marshaler.
+	nilElem := leaf("stringers:nil-pointer-element", func(k string) zapcore.Field {
+		return zap.Stringers(k, []*valStringer{{1}, nil, {2}})
+	}, func(k string, r Ref) []jsonx.Member {
+		if r.Alt == 0 {
+			return one(k, jsonx.A(jsonx.S("v1"), jsonx.S("<nil>"), jsonx.S("v2")))
+		}
+		return []jsonx.Member{{Key: k, Val: jsonx.A(jsonx.S("v1"))}, {Key: k + "Error", Val: jsonx.AnyS()}}
+	})
+	nilElem.Fault, nilElem.Alts = true, 1
+	add(nilElem)
+	panicElem := leaf("stringers:panicking-element", func(k string) zapcore.Field {
+		return zap.Stringers(k, []fmt.Stringer{okStringer{"a"}, panicStringer{}, okStringer{"b"}})
+	}, func(k string, r Ref) []jsonx.Member {
+		return []jsonx.Member{{Key: k, Val: jsonx.A(jsonx.S("a"))}, {Key: k + "Error", Val: jsonx.AnyS()}}
+	})
+	panicElem.Fault = true
+	add(panicElem)
 	add(leaf("errors", func(k string) zapcore.Field { return zap.Errors(k, []error{errors.New("x"), nil, verboseErr{"y"}}) }, func(k string, r Ref) []jsonx.Member {
 		return one(k, jsonx.A(jsonx.O().Add("error", jsonx.S("x")), jsonx.O().Add("error", jsonx.S("y")).Add("errorVerbose", jsonx.S("y\n\tat frame \"x\""))))
 	}))
